@@ -20,6 +20,7 @@ type opt struct {
 	noFault bool
 	t1      bool // place the case's single known-trigger fault on this command
 	big     bool // the edit writes more than 1024 bytes
+	paths   []string
 }
 
 func (c *cse) pick(n int) int    { return c.rnd.Intn(n) }
@@ -692,6 +693,15 @@ func (c *cse) choosePresent(u *user, wantFree, wantForeign, wantOwn int) string 
 }
 
 func (c *cse) opEdit(u *user, o opt) {
+	if len(o.paths) > 0 {
+		for _, p := range o.paths {
+			if _, err := os.Lstat(filepath.Join(u.dir, p)); err == nil {
+				c.editFile(u, p, false)
+			}
+		}
+		c.observe(u, "edit", nil)
+		return
+	}
 	n := 1 + c.pick(2)
 	for i := 0; i < n; i++ {
 		p := o.path
@@ -720,7 +730,10 @@ func (c *cse) opRemove(u *user, o opt) {
 }
 
 func (c *cse) opCommit(u *user, o opt) {
-	if len(u.dirty) == 0 || o.path != "" {
+	for _, p := range o.paths {
+		c.editFile(u, p, false)
+	}
+	if len(o.paths) == 0 && (len(u.dirty) == 0 || o.path != "") {
 		p := o.path
 		if p == "" {
 			p = c.choosePresent(u, 20, 40, 35)
@@ -747,6 +760,36 @@ func otherBranch(b string) string {
 		return "side"
 	}
 	return "main"
+}
+
+// missingLockable: tracked lockable files that are absent from the work tree right now (a full-scan hook
+// run - post-merge, post-checkout of files - meets them while walking `git ls-files`).
+func (c *cse) missingLockable(u *user) []string {
+	var out []string
+	r := c.env.PlainGit(u.dir, "ls-files", "-z")
+	for _, f := range strings.Split(string(r.Stdout), "\x00") {
+		if f == "" || !c.lockable[f] {
+			continue
+		}
+		if _, err := os.Lstat(filepath.Join(u.dir, f)); err != nil {
+			out = append(out, f)
+		}
+	}
+	return out
+}
+
+// observeScan: like observe, for commands whose hook scans the whole repository; a hook run that met a
+// missing tracked lockable file is a coordinate of its own.
+func (c *cse) observeScan(u *user, kind string, fixed []string, ran bool) {
+	if ran && !c.abort {
+		if miss := c.missingLockable(u); len(miss) > 0 {
+			c.count("hook_runs_with_tracked_lockable_file_missing", 1)
+			c.count("hook_runs_with_tracked_lockable_file_missing_"+kind, 1)
+			c.trigOverride = "hook-with-missing-lockable-file"
+		}
+	}
+	c.observe(u, kind, fixed)
+	c.trigOverride = ""
 }
 
 func (c *cse) opCheckout(u *user, o opt) {
@@ -788,17 +831,35 @@ func (c *cse) opCheckout(u *user, o opt) {
 				}
 			}
 		}
-		res, _ := c.exec(u, "checkout-files", "", "git", "checkout", "-q", "HEAD", "--", spec)
+		specs := []string{spec}
+		if mode == "paths" {
+			// restore exactly these files (files removed from the work tree stay missing while the hook runs)
+			specs, fixed = nil, nil
+			for _, p := range o.paths {
+				if u.dirty[p] {
+					specs = append(specs, p)
+					if c.isDirty(u, p) {
+						fixed = append(fixed, p)
+					}
+				}
+			}
+			if len(specs) == 0 {
+				specs = []string{spec}
+			}
+		}
+		res, _ := c.exec(u, "checkout-files", "", "git", append([]string{"checkout", "-q", "HEAD", "--"}, specs...)...)
 		if res.OK() {
-			if spec == "." {
-				u.dirty = map[string]bool{}
-			} else {
-				delete(u.dirty, spec)
+			for _, sp := range specs {
+				if sp == "." {
+					u.dirty = map[string]bool{}
+				} else {
+					delete(u.dirty, sp)
+				}
 			}
 		} else {
 			fixed = nil
 		}
-		c.observe(u, "checkout-files", fixed)
+		c.observeScan(u, "checkout-files", fixed, res.OK())
 	}
 }
 
@@ -830,7 +891,7 @@ func (c *cse) opMerge(u *user, o opt) {
 		c.exec(u, "aux-merge-abort", "", "git", "merge", "--abort")
 		c.count("merge_conflicts_aborted", 1)
 	}
-	c.observe(u, kind, fixed)
+	c.observeScan(u, kind, fixed, res.OK() && len(fixed) > 0)
 }
 
 // ---------------------------------------------------------------- push
@@ -984,7 +1045,38 @@ type step struct {
 
 // prefix: a few scripted openings (they are sequences of the quantifier like any other) so that
 // every tier exercises the three clauses even when the random tail is short.
+// densePrefix: many lockable files; the other user rewrites a good part of them, this user removes one or
+// two others from the work tree without committing, then the hooks that scan the whole repository run
+// (pull -> post-merge, `git checkout HEAD -- <files>` -> post-checkout) while those files are missing.
+func (c *cse) densePrefix() []step {
+	a := c.pick(2)
+	b := 1 - a
+	d := append([]string{}, c.denseFiles...)
+	c.rnd.Shuffle(len(d), func(i, j int) { d[i], d[j] = d[j], d[i] })
+	k := 6 + c.pick(len(d)/2)
+	if k > len(d)-4 {
+		k = len(d) - 4
+	}
+	touched, rest := d[:k], d[k:]
+	nrm := 1 + c.pick(2)
+	removed, rest := rest[:nrm], rest[nrm:]
+	st := []step{{a, "lock", opt{path: rest[0]}}, {b, "commit", opt{paths: touched}}, {b, "push", opt{}}}
+	for _, f := range removed {
+		st = append(st, step{a, "remove", opt{path: f}})
+	}
+	st = append(st, step{a, "merge", opt{mode: "pull-current"}})
+	k2 := 4 + c.pick(len(touched)-3)
+	if k2 > len(touched) {
+		k2 = len(touched)
+	}
+	st = append(st, step{a, "edit", opt{paths: touched[:k2]}}, step{a, "checkout", opt{mode: "paths", paths: touched[:k2]}})
+	return st
+}
+
 func (c *cse) prefix() []step {
+	if c.dense {
+		return c.densePrefix()
+	}
 	lockables := []string{}
 	for _, f := range c.files {
 		if c.lockable[f] {
